@@ -530,7 +530,8 @@ func checkC07Parent(x *e1ctx) {
 			eintr := false
 			for _, b := range callee.Blocks {
 				if iff := blockIf(b); iff != nil {
-					if strings.Contains(describe(iff.Cond), "== 4") || strings.Contains(describe(iff.Cond), "EINTR") {
+					// `err == EINTR` or `err != EINTR`, in any loop form
+					if a, _ := condLit(iff.Cond); strings.HasSuffix(a, fmt.Sprintf("== %d", p.Sys("EINTR"))) {
 						eintr = true
 					}
 				}
